@@ -861,7 +861,7 @@ Lemma ieval_calln cf f a xs b fr g : ieval cf funs clos fn (ECallN f a xs b) fr 
                   | Some (o, g') => Res o fr g'
                   | None => Fuel
                   end
-              | None => Res (EX (err "argument not passed")) fr g
+              | None => Res (EX (VErr "argument not passed")) fr g
               end
           | Res (inr x) fr g => Res (EX x) fr g
           | Fuel => Fuel
@@ -880,7 +880,7 @@ Lemma ieval_nargs_cons cf ok xs seen e r fr g : ieval_nargs cf funs clos fn ok x
       match ieval cf funs clos fn e fr g with
       | Res (EV v) fr g =>
           if ok x seen then ieval_nargs cf funs clos fn ok xr (seen ++ [(x, v)])%list r fr g
-          else Res (inr (err "named parameter")) fr g
+          else Res (inr (VErr "named parameter")) fr g
       | Res (EX w) fr g => Res (inr w) fr g
       | Fuel => Fuel
       end
@@ -1075,7 +1075,7 @@ Lemma reval_calln cf f a xs b fr g : reval cf funs clos fn (ECallN f a xs b) fr 
                   | Some (o, g') => Res o fr g'
                   | None => Fuel
                   end
-              | None => Res (EX (err "argument not passed")) fr g
+              | None => Res (EX (VErr "argument not passed")) fr g
               end
           | Res (inr x) fr g => Res (EX x) fr g
           | Fuel => Fuel
@@ -1094,7 +1094,7 @@ Lemma reval_nargs_cons cf ok xs seen e r fr g : reval_nargs cf funs clos fn ok x
       match reval cf funs clos fn e fr g with
       | Res (EV v) fr g =>
           if ok x seen then reval_nargs cf funs clos fn ok xr (seen ++ [(x, v)])%list r fr g
-          else Res (inr (err "named parameter")) fr g
+          else Res (inr (VErr "named parameter")) fr g
       | Res (EX w) fr g => Res (inr w) fr g
       | Fuel => Fuel
       end
